@@ -41,6 +41,7 @@ CODES = {
     20: ("oracle", "corpus file: parse -> write -> parse gives a different election"),
     21: ("oracle", "corpus file: the parsed election disagrees with an independent minimal reader of the file"),
     22: ("oracle", "corpus file: a further write/parse round trip changes the election again"),
+    23: ("model", "corpus file: the extracted Gallina parser (parse_file_x, OCaml) disagrees with the library's parse"),
     core.RAISED: ("oracle", "writing or parsing a well-formed election/file raised"),
 }
 RULE = ("rt: elections with 0..5 projects (ids/metadata from a pool containing ';', '\"', ',', spaces, non-ASCII "
@@ -815,10 +816,159 @@ def exotic(rng, rows, pheader_idx, prow_idx, vrow_idx, vcols, vt):
     return "exotic:" + kind
 
 
+# ----------------------------------------------------------------------------------------------
+# thorough tier: the parser model extracted to OCaml (never committed; built into /verif/gen)
+# ----------------------------------------------------------------------------------------------
+XPARSER_MAX_BYTES = 500 * 1024      # parse_loop appends ballots at the end of a list: quadratic in the votes
+XPARSER_TIMEOUT = 240
+EXTRACT_V = """From PB Require Import Model.PabulibM.
+Require Import ExtrOcamlBasic ExtrOcamlString.
+Extraction Blacklist String List.
+Extraction "pabulib_model.ml" parse_file_x show_q_dec show_nat_dec.
+"""
+DRIVER_ML = r"""(* reads a .pb file, prints the election parsed by the extracted Gallina parser; strings as hex *)
+open Pabulib_model
+let read_file path =
+  let ic = open_in_bin path in
+  let n = in_channel_length ic in
+  let s = really_input_string ic n in
+  close_in ic;
+  if n >= 3 && String.sub s 0 3 = "\xEF\xBB\xBF" then String.sub s 3 (n - 3) else s
+let explode s = let rec go i acc = if i < 0 then acc else go (i - 1) (s.[i] :: acc) in go (String.length s - 1) []
+let implode l = let b = Buffer.create 16 in List.iter (Buffer.add_char b) l; Buffer.contents b
+let hex l = let b = Buffer.create 32 in
+  List.iter (fun c -> Buffer.add_string b (Printf.sprintf "%02x" (Char.code c))) l;
+  if Buffer.length b = 0 then "-" else Buffer.contents b
+let qs x = implode (show_q_dec x)
+let oq = function None -> "-" | Some x -> qs x
+let on = function None -> "-" | Some n -> implode (show_nat_dec n)
+let dict d = String.concat "," (List.map (fun (k, v) -> hex k ^ "=" ^ hex v) d)
+let strs l = String.concat "," (List.map hex l)
+let () =
+  let text = read_file Sys.argv.(1) in
+  match parse_file_x (explode text) with
+  | None -> print_string "NONE\n"
+  | Some e ->
+    let vt = match e.e_vtype with Approval -> "approval" | Scoring -> "scoring"
+                                | Cumulative -> "cumulative" | Ordinal -> "ordinal" in
+    Printf.printf "vtype %s\nbudget %s\n" vt (qs e.e_budget);
+    Printf.printf "limits %s %s %s %s %s %s %s %s\n" (on e.e_min_len) (on e.e_max_len) (oq e.e_min_cost)
+      (oq e.e_max_cost) (oq e.e_min_total) (oq e.e_max_total) (oq e.e_min_score) (oq e.e_max_score);
+    Printf.printf "meta {%s}\n" (dict e.e_meta);
+    List.iter (fun p -> Printf.printf "project %s %s [%s] [%s] {%s}\n" (hex p.p_name) (qs p.p_cost)
+                 (strs p.p_cats) (strs p.p_targets) (dict p.p_meta)) e.e_projects;
+    List.iter (fun b -> Printf.printf "ballot [%s] [%s] {%s}\n" (strs b.b_projects)
+                 (String.concat "," (List.map qs b.b_points)) (dict b.b_meta)) e.e_ballots
+"""
+_XBIN = "unset"
+
+
+def build_xparser():
+    """coqc (Extraction) + ocamlfind ocamlopt into /verif/gen/C11_xparser_<pid>; None when unavailable"""
+    global _XBIN
+    if _XBIN != "unset":
+        return _XBIN
+    import atexit
+    import shutil
+    import subprocess
+    d = os.path.join(core.VERIF, "gen", "C11_xparser_%d" % os.getpid())
+    _XBIN = None
+    try:
+        shutil.rmtree(d, ignore_errors=True)
+        os.makedirs(d)
+        atexit.register(lambda: shutil.rmtree(d, ignore_errors=True))
+        open(os.path.join(d, "extract.v"), "w").write(EXTRACT_V)
+        open(os.path.join(d, "driver.ml"), "w").write(DRIVER_ML.replace("\\", "\\"))
+        r = subprocess.run(["timeout", "600", "coqc", "-q", "-Q", os.path.join(core.COQ, "theories"), "PB", "extract.v"],
+                           cwd=d, capture_output=True, text=True)
+        if r.returncode != 0 or not os.path.exists(os.path.join(d, "pabulib_model.ml")):
+            raise RuntimeError("extraction failed: " + (r.stdout + r.stderr)[-400:])
+        r = subprocess.run(["timeout", "600", "ocamlfind", "ocamlopt", "-O3", "-w", "-a", "pabulib_model.mli",
+                            "pabulib_model.ml", "driver.ml", "-o", "pbparse"], cwd=d, capture_output=True, text=True)
+        if r.returncode != 0 or not os.path.exists(os.path.join(d, "pbparse")):
+            raise RuntimeError("ocamlopt failed: " + (r.stdout + r.stderr)[-400:])
+        _XBIN = os.path.join(d, "pbparse")
+    except Exception as ex:     # noqa: the extracted parser is an additional tie, not a prerequisite
+        sys_msg = repr(ex)[:300]
+        _XBIN = None
+        build_xparser.error = sys_msg
+    return _XBIN
+
+
+build_xparser.error = None
+
+
+def unhex(t):
+    return "" if t == "-" else bytes.fromhex(t).decode("utf-8")
+
+
+def undict(t):
+    t = t.strip()
+    assert t.startswith("{") and t.endswith("}"), t[:40]
+    t = t[1:-1]
+    return [] if not t else [[unhex(kv.split("=")[0]), unhex(kv.split("=")[1])] for kv in t.split(",")]
+
+
+def unlist(t):
+    assert t.startswith("[") and t.endswith("]"), t[:40]
+    t = t[1:-1]
+    return [] if not t else t.split(",")
+
+
+def read_xdump(out):
+    """the driver's output -> election dict (None when the model's parser fails)"""
+    lines = out.split("\n")
+    if lines[0].strip() == "NONE":
+        return None
+    E = {"projects": [], "ballots": []}
+    for ln in lines:
+        if not ln:
+            continue
+        w = ln.split(" ")
+        if w[0] == "vtype":
+            E["vtype"] = w[1]
+        elif w[0] == "budget":
+            E["budget"] = core.qj(F(w[1]))
+        elif w[0] == "limits":
+            vals = w[1:9]
+            E["limits"] = {k: (None if v == "-" else (int(v) if k in ("min_len", "max_len") else core.qj(F(v))))
+                           for k, v in zip(LIMS, vals)}
+        elif w[0] == "meta":
+            E["meta"] = undict(w[1])
+        elif w[0] == "project":
+            E["projects"].append({"name": unhex(w[1]), "cost": core.qj(F(w[2])),
+                                  "cats": sorted(unhex(x) for x in unlist(w[3])),
+                                  "targets": sorted(unhex(x) for x in unlist(w[4])), "meta": undict(w[5])})
+        elif w[0] == "ballot":
+            names = [unhex(x) for x in unlist(w[1])]
+            E["ballots"].append({"projects": names, "points": [core.qj(F(x)) for x in unlist(w[2])],
+                                 "meta": undict(w[3]), "mult": 1})
+    if E.get("vtype") == "approval":
+        for b in E["ballots"]:
+            b["projects"] = sorted(b["projects"])
+    return E
+
+
+def run_xparser(xbin, path):
+    import subprocess
+    try:
+        r = subprocess.run(["bash", "-c", 'ulimit -s unlimited 2>/dev/null || ulimit -s 1000000; exec "$0" "$1"', xbin, path],
+                           capture_output=True, timeout=XPARSER_TIMEOUT)
+    except subprocess.TimeoutExpired:
+        return "timeout", None
+    if r.returncode != 0:
+        return "crash rc=%s %s" % (r.returncode, r.stderr.decode("utf8", "replace")[-200:]), None
+    return "ok", read_xdump(r.stdout.decode("utf-8"))
+
+
 def gen(rng, i, tier):
     sel = corpus_selection(tier)
     if i < len(sel):
-        return {"kind": "corpus", "path": sel[i]}
+        c = {"kind": "corpus", "path": sel[i]}
+        if tier == "thorough" and not os.environ.get("VERIF_C11_NO_EXTRACT"):
+            c["xbin"] = build_xparser()
+            c["xerr"] = build_xparser.error
+        return c
     j = i - len(sel)
     if j % 5 in (0, 1, 2):
         return gen_rt(rng, j, tier)
@@ -870,7 +1020,8 @@ def impl(case):
                 raise
             return {"out1": None, "raised": type(e).__name__}
         return {"out1": out1}
-    return corpus_check(os.path.join(os.environ.get("VERIF_REPO", REPO), "tests", "PaBuLib", case["path"]))
+    return corpus_check(os.path.join(os.environ.get("VERIF_REPO", REPO), "tests", "PaBuLib", case["path"]),
+                        case.get("xbin"))
 
 
 def post(cases, obs):
@@ -1030,7 +1181,7 @@ def check_against_minimal(text, E):
     return None
 
 
-def corpus_check(path):
+def corpus_check(path, xbin=None):
     from pabutools.election.pabulib import parse_pabulib_from_string, election_as_pabulib_string
     with open(path, "r", newline="", encoding="utf-8-sig") as f:
         text = f.read()
@@ -1042,6 +1193,21 @@ def corpus_check(path):
     r = check_against_minimal(text, E1)
     if r:
         return {"code": 21, "detail": r, "summary": summary}
+    if xbin and os.path.getsize(path) <= XPARSER_MAX_BYTES:
+        st, Ex = run_xparser(xbin, path)
+        summary["xparser"] = st
+        if st == "ok":
+            if Ex is None:
+                return {"code": 23, "detail": "the model's parser fails on a file the library parses", "summary": summary}
+            r = compare_elections(E1, Ex, full=True)
+            if not r and [b["projects"] for b in E1["ballots"]] != [b["projects"] for b in Ex["ballots"]]:
+                r = "ballots in a different order"
+            if r:
+                return {"code": 23, "detail": r, "summary": summary}
+        elif st != "timeout":
+            return {"code": 23, "detail": "extracted parser: " + st, "summary": summary}
+    elif xbin:
+        summary["xparser"] = "skipped_large"
     t2 = election_as_pabulib_string(i1, p1)
     i2, p2 = parse_pabulib_from_string(t2)
     E2 = dump(i2, p2)
@@ -1086,7 +1252,8 @@ def stats(cases, obs):
          "fractional_cost": 0, "special_char_in_id": 0, "special_char_in_meta": 0, "with_categories": 0,
          "with_limits": 0, "limit_kept": 0, "limit_defaulted": 0, "ballot_order_checked": 0, "flag": {},
          "with_empty_ballot": 0, "no_project_meta_entry": 0, "quoted_text": 0, "crlf": 0, "blank_lines": 0, "corpus_votes": 0, "corpus_bytes": 0, "corpus_vtype": {},
-         "corpus_quoted": 0, "corpus_with_limits": 0, "malformed_kinds": {}}
+         "corpus_quoted": 0, "corpus_with_limits": 0, "malformed_kinds": {},
+         "extracted_parser": {}, "extracted_parser_build_error": None}
     for c, o in zip(cases, obs):
         if not isinstance(o, dict):
             continue
@@ -1099,6 +1266,10 @@ def stats(cases, obs):
             d["corpus_vtype"][s.get("vtype", "?")] = d["corpus_vtype"].get(s.get("vtype", "?"), 0) + 1
             d["corpus_quoted"] += bool(s.get("quoted"))
             d["corpus_with_limits"] += bool(s.get("limits"))
+            xp = s.get("xparser", "not_run")
+            d["extracted_parser"][xp] = d["extracted_parser"].get(xp, 0) + 1
+            if c.get("xerr"):
+                d["extracted_parser_build_error"] = c["xerr"]
             continue
         E = c.get("E")
         if k == "file":
